@@ -15,7 +15,9 @@ import (
 	"verif/harness/lib"
 )
 
-var names = []string{"a", "b", "a", "A", "", "é", "é", "a+b", "a b", "%", "&=", "?x", "日本", "🙂", "x%41", "a&b=c", "+", "%zz", "c", "q", "a", "b"}
+var names = []string{"a", "b", "a", "A", "", "é", "é", "a+b", "a b", "%", "&=", "?x", "日本", "🙂", "x%41", "a&b=c", "+", "%zz", "c", "q", "a", "b",
+	// sort() compares UTF-16 code units: a supplementary character (surrogates D800..DFFF) sorts before U+E000..U+FFFF, whose UTF-8 bytes are smaller
+	"～", "\uE000", "😀", "𐀀", "a～", "a😀", "a\uFFFF"}
 var values = []string{"1", "2", "", "x y", "+", "%", "&", "=", "?", "é", "a=b", "%2B", "1+1=2", "🙂", "日本", "#h", "/p?q", "~", "*", "a&b", "1", "x"}
 var qpieces = []string{"a=1", "b=2", "&", "&&", "=", "a", "%41", "%4", "%", "+", "%zz", "?", "é", "%C3%A9", "a=b=c", "x=%26%3D", " ", "a=", "=v", "%2B", "%25", "&a", "b&", "#", "%E6%97%A5", "a+b=c+d", "%7e"}
 
